@@ -706,7 +706,13 @@ fn session_pure_op(ctx: &mut Ctx, sc: &Session, i: usize, op: &SOp, pool_v: &mut
                 if !(du <= 1e-6) {
                     ctx.out.violate("state-mismatch", "nvu:specification", format!("op {i} new_nvu of {} from T0 = {ti} T: returned T={} has u - u_spec = {du:e} RT", sys.name, a.temperature));
                 } else if !(d <= TOL_STATE) {
-                    ctx.out.violate("state-mismatch", "nvu", format!("op {i} new_nvu of {}: T={} with initial temperature, T={} without", sys.name, a.temperature, b.temperature));
+                    if a.temperature.to_reduced() < 0.45 * sys.tc {
+                        // a second exact solution of the same (V, u) on the model's unphysical low-temperature
+                        // branch (CO2, PC-SAFT: 43 K instead of 191 K from T0 = 0.35 T), as for new_nph / new_nps
+                        ctx.out.count("window.nvu_second_root_below_0.45Tc", 1);
+                    } else {
+                        ctx.out.violate("state-mismatch", "nvu", format!("op {i} new_nvu of {}: T={} with initial temperature, T={} without; both have the specified internal energy", sys.name, a.temperature, b.temperature));
+                    }
                 }
             }
         }
